@@ -7,7 +7,7 @@ import (
 
 const binPkg = "go.uber.org/thriftrw/protocol/binary"
 
-var pkgBinary = PkgDef{Path: binPkg, Dir: "protocol/binary", Name: "binary", Files: []string{"protocol_binary/zz_common.go", "protocol_binary/zz_h03.go", "protocol_binary/zz_h02.go"}}
+var pkgBinary = PkgDef{Path: binPkg, Dir: "protocol/binary", Name: "binary", Files: []string{"protocol_binary/zz_common.go", "protocol_binary/zz_h03.go", "protocol_binary/zz_h02.go", "protocol_binary/zz_h12.go"}}
 
 var commonAssume = []string{
 	"A1 sequential execution (no goroutines)",
@@ -20,7 +20,7 @@ var commonAssume = []string{
 }
 
 func allChecks() []*CheckDef {
-	return []*CheckDef{checkC02(), checkC03()}
+	return []*CheckDef{checkC02(), checkC03(), checkC12()}
 }
 
 func checkC03() *CheckDef {
@@ -82,6 +82,47 @@ func checkC02() *CheckDef {
 			p := params(tier)
 			return map[string]interface{}{"nesting_depth_max": p["depth"], "total_nodes_max": p["budget"], "container_len_max": p["k"], "binary_len_max": p["bin"],
 				"leaves": "all values of every scalar (symbolic), all field ids (symbolic, pairwise distinct)"}
+		},
+		Assume: commonAssume,
+	}
+}
+
+func checkC12() *CheckDef {
+	type bnd struct{ l, n, lc, free int }
+	bounds := func(tier string) bnd {
+		if tier == "thorough" {
+			return bnd{l: 5, n: 12, lc: 3, free: 3}
+		}
+		return bnd{l: 3, n: 8, lc: 2, free: 2}
+	}
+	return &CheckDef{
+		ID:   "C12",
+		Pkgs: []PkgDef{pkgBinary},
+		Harnesses: func(tier string) []*sym.HarnessConfig {
+			b := bounds(tier)
+			var out []*sym.HarnessConfig
+			for l := 1; l <= b.l; l++ {
+				out = append(out, &sym.HarnessConfig{Name: "h12a", Pkg: binPkg, Params: map[string]int{"l": l}, Budget: 1000000, BigLim: 24})
+			}
+			for rk := 0; rk <= 2; rk++ {
+				for n := 0; n <= b.n; n++ {
+					out = append(out, &sym.HarnessConfig{Name: "h12b", Pkg: binPkg, Params: map[string]int{"n": n, "reader": rk, "free": b.free}, Budget: 1000000, BigLim: b.n + 2})
+				}
+				for l := 1; l <= b.lc; l++ {
+					out = append(out, &sym.HarnessConfig{Name: "h12c", Pkg: binPkg, Params: map[string]int{"l": l, "reader": rk, "free": b.free}, Budget: 1000000, BigLim: 24})
+				}
+			}
+			out = append(out, &sym.HarnessConfig{Name: "h12_witness", Pkg: binPkg, Params: map[string]int{"l": 1}, ExpectViolation: true})
+			return out
+		},
+		Bounds: func(tier string) map[string]interface{} {
+			b := bounds(tier)
+			return map[string]interface{}{
+				"roundtrip_name_len": fmt.Sprintf("1..%d (all byte values)", b.l), "type": "0..127 symbolic", "seqid": "all int32", "body": "struct with <=1 field, symbolic id and leaf",
+				"classification_input_bytes_max": b.n, "readers": fmt.Sprintf("seekable bytes.Reader; one-shot non-seekable; non-seekable whose first %d reads return every possible count (>=1 byte, plus one zero-length read) and later reads are maximal", b.free),
+				"echo_name_len": fmt.Sprintf("1..%d", b.lc),
+				"outside":       "names longer than the bound (up to 2^16 in the property), legacy names >= 16 MB, negative message types, internal/envelope client/server and multiplex wrappers (see h12d when present)",
+			}
 		},
 		Assume: commonAssume,
 	}
